@@ -176,6 +176,50 @@ def replay(prop, job, files, h):
     return reproduced, script, out
 
 
+def retry_pinned(prop, job, files, h, seed):
+    import random
+    rnd = random.Random(seed)
+    pin_re = re.compile(h["cfg"]["pin"])
+    base = dict(h.get("model") or {})
+    names = sorted((k for k in base if pin_re.search(k)), key=lambda s: [int(t) if t.isdigit() else t for t in re.split(r"(\d+)", s)])
+    attempts = []
+    # unit operands make every product with them linear and keep the constants small
+    m = dict(base)
+    for i, k in enumerate(names):
+        m[k] = "1" if i == 0 else "0"
+    attempts.append(m)
+    m = dict(base)
+    for i, k in enumerate(names):
+        m[k] = "0" if i == len(names) - 1 and len(names) > 1 else "1"
+    attempts.append(m)
+    attempts.append(base)
+    m = dict(base)
+    for i, k in enumerate(names):
+        m[k] = "0" if i == len(names) - 1 and len(names) > 1 else str(rnd.getrandbits(64) | 1)
+    attempts.append(m)
+    for n, m in enumerate(attempts):
+        pf = os.path.join(files["wd"], "pin_%s_%d.json" % (h["name"], n))
+        json.dump({"model": m}, open(pf, "w"))
+        r = run_gosmt(prop, 0, job, files, "^" + h["name"] + "$",
+                      extra_args=["-pin", pf, "-out", pf + ".result.json", "-solver", "z3new:60000,z3a2:30000"])
+        try:
+            res = json.load(open(pf + ".result.json"))
+        except Exception:
+            continue
+        for h2 in res["harnesses"]:
+            if h2["status"] == "violated":
+                # pinned inputs are not part of the model any more: merge them back for the replay
+                mm = dict(h2.get("model") or {})
+                for k, val in m.items():
+                    if pin_re.search(k):
+                        mm[k] = val
+                h2["model"] = mm
+                reproduced, script, out = replay(prop, job, files, h2)
+                if reproduced:
+                    return h2, True, script
+    return h, False, None
+
+
 def load_known():
     path = os.path.join(ROOT, "known_findings.txt")
     out = []
@@ -282,6 +326,14 @@ def main():
                     known_hits.append((k, job, h))
                     row["status"] = "known-finding"
                     continue
+                if not reproduced and (h.get("cfg") or {}).get("pin"):
+                    # semi-concretisation: the model lives in an over-approximation (uninterpreted products);
+                    # pin the inputs named by the harness to concrete values so that the query is exact
+                    h2, rep2, script2 = retry_pinned(prop, job, r["files"], h, seed)
+                    if h2 is not None:
+                        row["pinned_retry"] = h2["status"]
+                        if rep2:
+                            reproduced, script, h = True, script2, h2
                 if reproduced:
                     violations.append((job, h, script))
                 else:
